@@ -13,7 +13,7 @@ from pymbolic.mapper import Mapper
 import pymbolic.primitives as pmbl
 from pymbolic.parser import (
     _openpar, _closepar, _minus, FinalizedTuple, _PREC_UNARY,
-    _PREC_TIMES, _PREC_PLUS, _PREC_CALL, _times, _plus
+    _PREC_TIMES, _PREC_PLUS, _PREC_CALL, _PREC_LOGICAL_AND, _times, _plus
 )
 try:
     from fparser.two.Fortran2003 import Intrinsic_Name
@@ -291,13 +291,41 @@ class ExpressionParser(ParserBase):
             return sym_ops.ParenthesisedPow(base=expr.base, exponent=expr.exponent)
         return expr
 
+    @classmethod
+    def _join_product(cls, left_exp, right_exp):
+        """
+        Utility method to multiply :data:`left_exp` with the remainder :data:`right_exp` of a
+        chain of multiplications and divisions, which associates from left to right.
+        """
+        def _has_division(expr):
+            # pylint: disable=unidiomatic-typecheck
+            if type(expr) is pmbl.Quotient:
+                return True
+            return type(expr) is pmbl.Product and _has_division(expr.children[0])
+
+        # pylint: disable=unidiomatic-typecheck
+        if type(right_exp) is pmbl.Quotient:
+            return pmbl.Quotient(numerator=cls._join_product(left_exp, right_exp.numerator),
+                                 denominator=right_exp.denominator)
+        # pylint: disable=unidiomatic-typecheck
+        if type(right_exp) is pmbl.Product:
+            if _has_division(right_exp.children[0]):
+                return pmbl.Product((cls._join_product(left_exp, right_exp.children[0]), right_exp.children[1]))
+            return pmbl.Product((sym.Product((left_exp, right_exp.children[0])), right_exp.children[1]))
+        return pmbl.Product((left_exp, right_exp))
+
     def parse_prefix(self, pstate):
         pstate.expect_not_end()
 
         if pstate.is_next(_minus):
             pstate.advance()
-            left_exp = pmbl.Product((-1, self.parse_expression(pstate, _PREC_UNARY)))
+            # A sign has the precedence of an addition: -a**b*c is -((a**b)*c)
+            left_exp = pmbl.Product((-1, self.parse_expression(pstate, _PREC_PLUS)))
             return left_exp
+        if pstate.is_next(self._f_not):
+            pstate.advance()
+            # .not. binds weaker than comparisons: .not. a < b is .not. (a < b)
+            return pmbl.LogicalNot(self.parse_expression(pstate, _PREC_LOGICAL_AND))
         if pstate.is_next(_openpar):
             pstate.advance()
 
@@ -325,22 +353,15 @@ class ExpressionParser(ParserBase):
         did_something = False
         if pstate.is_next(self._f_derived_type) and _PREC_CALL > min_precedence:
             pstate.advance()
-            right_exp = self.parse_expression(pstate, _PREC_PLUS)
+            # The component reference only extends over subscripts and further components
+            right_exp = self.parse_expression(pstate, _PREC_UNARY)
             left_exp = pmbl.Lookup(left_exp, right_exp)
             did_something = True
         elif pstate.is_next(_times) and _PREC_TIMES > min_precedence:
             pstate.advance()
             right_exp = self.parse_expression(pstate, _PREC_PLUS)
-            # NECESSARY to ensure correct ordering!
-            # pylint: disable=unidiomatic-typecheck
-            if type(right_exp) is pmbl.Quotient:
-                left_exp = pmbl.Quotient(numerator=pmbl.Product((left_exp, right_exp.numerator)),
-                        denominator=right_exp.denominator)
-            # pylint: disable=unidiomatic-typecheck
-            elif type(right_exp) is pmbl.Product:
-                left_exp = pmbl.Product((sym.Product((left_exp, right_exp.children[0])), right_exp.children[1]))
-            else:
-                left_exp = pmbl.Product((left_exp, right_exp))
+            # NECESSARY to ensure correct ordering!
+            left_exp = self._join_product(left_exp, right_exp)
             did_something = True
         elif pstate.is_next(_plus) and _PREC_PLUS > min_precedence:
             pstate.advance()
